@@ -771,7 +771,7 @@ fn main() {
         let s = seeds(thorough);
         rep.bump_by("hand-made minimal shapes", s.len() as u64);
         cases.extend(s);
-        let budget: usize = args.extra.get("types").and_then(|t| t.parse().ok()).unwrap_or(if thorough { 4000 } else { 500 });
+        let budget: usize = args.extra.get("types").and_then(|t| t.parse().ok()).unwrap_or(if thorough { 8000 } else { 700 });
         let max_depth = if thorough { 5 } else { 3 };
         let mut used: usize = cases.iter().map(type_count).sum();
         let mut g = Gen::new(rng.fork(2));
@@ -801,8 +801,8 @@ fn main() {
     }
 
     // ---- round 1 --------------------------------------------------------------------------------
-    let shards = if thorough { 8 } else { 1 };
-    let jobs = if thorough { 8 } else { 3 };
+    let shards = if thorough { 16 } else { 1 };
+    let jobs = if thorough { 12 } else { 3 };
     let lines = match builder.run(&cases, shards, jobs) {
         Ok(l) => l,
         Err(e) => {
